@@ -250,7 +250,7 @@ func c04Method(c *Ctx, r *Report, pkgRel string, m, ctor *ssa.Function, tn *type
 			r.instance("R4.1", 1)
 		}
 		seen := map[string]bool{}
-		for _, o := range an.obligs {
+		for _, o := range failFirst(an.obligs) {
 			what := fmt.Sprintf("%s in %s", o.desc, o.chain)
 			k := what + c.pos(o.pos)
 			if seen[k] {
@@ -838,6 +838,65 @@ func checkC04(c *Ctx, r *Report) {
 		if len(seen) == 0 {
 			r.ok("R4.5", "packet.Registers", fmt.Sprintf("none of the %d access paths (nor anything they call) writes through payload-derived memory or changes decoder state", len(roots)), "-", true)
 		}
+	}
+	// R4.7: the sub-register accessors (results of one byte or one bit: Bit, Byte, Uint8, Int8) are
+	// defined on the wire register, high byte first; they have no order parameter and must not
+	// depend on the configured default order either: nothing reachable from them reads the
+	// ByteOrder-typed field of Registers
+	{
+		sp := c.pkg("packet")
+		tn := sp.Type("Registers").Type().(*types.Named)
+		st := tn.Underlying().(*types.Struct)
+		ordField := -1
+		for i := 0; i < st.NumFields(); i++ {
+			if n, ok := st.Field(i).Type().(*types.Named); ok && n.Obj().Name() == "ByteOrder" {
+				ordField = i
+			}
+		}
+		for _, m := range methodsOf(c, "packet", "Registers") {
+			res := m.Signature.Results()
+			if res.Len() != 2 || m.Object() == nil || !m.Object().Exported() {
+				continue
+			}
+			b, ok := res.At(0).Type().Underlying().(*types.Basic)
+			if !ok || !(b.Kind() == types.Bool || b.Kind() == types.Uint8 || b.Kind() == types.Int8) {
+				continue
+			}
+			hasOrderParam := false
+			for i := 0; i < m.Signature.Params().Len(); i++ {
+				if n, ok := m.Signature.Params().At(i).Type().(*types.Named); ok && n.Obj().Name() == "ByteOrder" {
+					hasOrderParam = true
+				}
+			}
+			if hasOrderParam || ordField < 0 {
+				continue
+			}
+			r.instance("R4.7", 1)
+			id := fnID(m)
+			bad := ""
+			for _, fn := range reachableInModule(c, []*ssa.Function{m}) {
+				for _, blk := range fn.Blocks {
+					for _, in := range blk.Instrs {
+						switch x := in.(type) {
+						case *ssa.FieldAddr:
+							if x.Field == ordField && types.Identical(deref(x.X.Type()), tn) {
+								bad = c.pos(x.Pos())
+							}
+						case *ssa.Field:
+							if x.Field == ordField && types.Identical(x.X.Type(), tn) {
+								bad = c.pos(x.Pos())
+							}
+						}
+					}
+				}
+			}
+			if bad == "" {
+				r.ok("R4.7", id, "the result is taken from the wire register and does not depend on the configured byte order (nothing reachable reads Registers."+st.Field(ordField).Name()+")", c.pos(m.Pos()), true)
+			} else {
+				r.fail("R4.7", id, "a sub-register accessor without an order parameter reads the configured byte order: the same wire bytes give different bits/bytes after WithByteOrder", bad, "", "order-dependent-subregister")
+			}
+		}
+		r.floor("R4.7", 4)
 	}
 	// R4.6: the windows the accessors work on are the responses' whole payloads: every AsRegisters
 	// hands (payload field, request start address) to NewRegisters unchanged (C05 R5.2 plumbing)
